@@ -82,6 +82,22 @@ type Tree struct {
 	Name string          `plenc:"5,intern"`
 }
 
+// Place and Visit: the intern option on fields that are no strings (a struct, a pointer to one, a
+// slice of them) whose type has string fields of its own. Not part of All.
+type Place struct {
+	City string `plenc:"1"`
+	Zip  string `plenc:"2,intern"`
+	N    int    `plenc:"3"`
+}
+
+type Visit struct {
+	ID    int     `plenc:"1"`
+	Where Place   `plenc:"2,intern"`
+	Also  *Place  `plenc:"3,intern"`
+	Many  []Place `plenc:"4,intern"`
+	Plain Place   `plenc:"5"`
+}
+
 // PTree is recursive through a slice of pointers
 type PTree struct {
 	V    int64     `plenc:"1,flat"`
